@@ -376,7 +376,7 @@ pub fn run(e: &Engine) {
     e.campaign(
         "triples",
         "2-3 replicas with 0-3 generated edits each on 2 tasks, optional causal follow-up with an older timestamp, all permutations of the sync order; non-trivial as above",
-        e.tier.pick(2000, 200_000),
+        e.tier.pick(100_000, 2_000_000),
         strategy,
         render,
         check_scenario,
